@@ -1,4 +1,20 @@
-(* InvStake.v — properties C11 (stake bookkeeping) and C12 (release / refund rules) of Spec.v *)
+(* InvStake.v — properties C11 (stake bookkeeping) and C12 (release / refund rules) of Spec.v.
+
+   C11 (A)  dels_ok_reachable, C11_sums_at_every_height, total_power_query: every delegatee of every
+            reachable working state and of every committed version has total = sum of its stakes,
+            self = sum of its owner's stakes, all stakes pointing to it; the query equals the sum.
+       (B1) hashes_unique_run / hashes_unique_reachable: stake hashes stay unique as long as executed
+            staking transactions carry fresh hashes; true from genesis with at most one validator.
+       (B2) C11_collision_refuted: with two genesis validators (both stakes carry hash 0) both
+            releasing in one block, one stake ends in neither ledger and is never refunded.
+       (B3) stake_unchanged_step, stake_begin_block_fields, stake_begin_block_power: a stake keeps
+            owner, target, hash, start; power only cut by BeginBlock slashing; deliver_never_loses,
+            begin_block_never_loses: it is bonded or unbonding until refunded.
+   C12 (C1) release_only_by_owner, unstake_only_owner, begin_block_release_cases.
+       (C2) release_stamps_refund_height, force_release_stamps_refund_height, frozen_untouched,
+            end_block_frozen_only_deletes.
+       (C3) unfreeze_exact, refund_only_to_owner, refund_balance, power_to_amount_exact,
+            refunded_entry_gone. *)
 From Rigo Require Import Base.
 From stdpp Require Import gmap sorting.
 From Rigo Require Import Spec SpecProps.
@@ -1899,6 +1915,9 @@ Proof.
   rewrite (refunds_to_perm _ _ (sorted_items (frozen (base_of s))) (map_to_list (frozen (base_of s)))); [reflexivity|].
   unfold sorted_items. apply merge_sort_Permutation.
 Qed.
+
+Print Assumptions refund_only_to_owner.
+Print Assumptions refund_balance.
 
 Lemma fee_credited_other s a : b_proposer (bctx s) ≠ Some a → fee_credited s a = acct_of (work s) a.
 Proof.
